@@ -6,6 +6,13 @@ ROOT = os.path.dirname(os.path.dirname(os.path.abspath(__file__)))
 
 # id -> (category, technique, level text, level note, design ref)
 CHECKS = {
+ "C17": ("exploration",
+   "model-based stateful testing (per-connection alias map) with bounded-exhaustive short histories + proptest histories over two connections",
+   "Every history of <=3 (quick) / <=4 (thorough) publishes over {topic only, bind, use} x two topics x aliases {1, max, max+1}, plus random histories of up to 10 publishes interleaved on two "
+   "connections of one server factory, with and without the topic router, server and client role, several advertised maxima; the handler must see the topic the model resolves and the route it selects, "
+   "invalid aliases must end the connection with a protocol error without reaching a handler, bindings of one connection are invisible on the other.",
+   "Trusted: as C03.",
+   "DESIGN.md section 3 C17"),
  "C16": ("exploration",
    "bounded-exhaustive packet-sequence enumeration + proptest sequences against idle/busy application states; crash/quiescence/responsiveness oracle",
    "Every sequence of length <=3 (quick) / <=4 (thorough) over 26-30 well-formed packet templates per version, after and instead of the handshake, against an idle application and one with "
